@@ -154,7 +154,7 @@ struct Outcome {
 /// (both halves spawned concurrently, progress watcher), or a whole `repair_members` round on a young rig - at the
 /// point where the model's exchange reads the peer's state; the model's finer steps of that exchange are skipped.
 /// This is the behaviour in which the exchange's steps are contiguous, so the same final expectation applies.
-async fn run_behaviour(rig: &Rig, b: &Value, idx: u64, f: u64, coarse: bool, tracked: bool, refuse_a_repair_write: bool) -> Outcome {
+async fn run_behaviour(rig: &Rig, b: &Value, idx: u64, f: u64, coarse: bool, tracked: bool, repair_fault: u8) -> Outcome {
     let mut out = Outcome { refused_repair_writes: 0, held_rounds: 0, rounds: 0, fixpoint: false, why: vec![], drift: vec![], reads: Value::Null, tool_error: None };
     let mut coarse_done: std::collections::BTreeSet<(u64, u64)> = Default::default();
     let mut trackers: BTreeMap<u64, repair::Tracker> = rig.nodes.keys().map(|n| (*n, repair::Tracker::default())).collect();
@@ -369,12 +369,20 @@ async fn run_behaviour(rig: &Rig, b: &Value, idx: u64, f: u64, coarse: bool, tra
                 members.insert(peer.id, peer.addr);
                 // now and then the node's storage refuses the first write of this round (nothing written) - a repair write, if
                 // the round has anything to repair.  The exchange must not count as done: a later round repairs.
-                let arm = refuse_a_repair_write && out.refused_repair_writes == 0;
-                if arm {
+                // ... or the peer's storage refuses the read behind the first fetch of documents (every other time)
+                let arm = repair_fault > 0 && out.refused_repair_writes == 0;
+                let on_peer = arm && repair_fault == 2;
+                if on_peer {
+                    *peer.store.fail_read.lock() = Some("fetch");
+                } else if arm {
                     me.store.set_plan(Plan::Fail(vec![]));
                 }
                 repair::repair_round_tracked(&me.grp(), &me.network, &members, trackers.get_mut(&n).unwrap()).await;
-                if arm {
+                if on_peer {
+                    if peer.store.fail_read.lock().take().is_none() {
+                        out.refused_repair_writes += 1;
+                    }
+                } else if arm {
                     if matches!(*me.store.plan.lock(), Plan::Fail(_)) {
                         me.store.set_plan(Plan::Ok);       // nobody ran into it
                     } else {
@@ -665,7 +673,7 @@ pub async fn replay() {
             steps_total += 1;
             *kinds.entry(s["a"].as_str().unwrap().to_string()).or_default() += 1;
         }
-        let o = run_behaviour(&rig, b, in_rig, f, coarse, tracked, tracked && idx % 60 == 7).await;
+        let o = run_behaviour(&rig, b, in_rig, f, coarse, tracked, if tracked && idx % 30 == 7 { 1 + ((idx / 30) % 2) as u8 } else { 0 }).await;
         rounds_total += o.rounds;
         held_total += o.held_rounds;
         refused_total += o.refused_repair_writes;
